@@ -293,6 +293,31 @@ def check(ctx):
                f"embedded trajectory member {ext}: writer/reader pairing "
                f"deviates", key=f"C06.3:traj:{ext}")
 
+    # every embedded trajectory / array gets its own fresh buffer: a buffer
+    # created outside the loop keeps the tail of a longer earlier member
+    for ctor, what in (("io.StringIO", "trajectory"), ("io.BytesIO",
+                                                       "array")):
+        users = [e for e in ws if any(
+            is_call_to(x, ctor) for x in e.data["args"][1].walk())]
+        for e in users:
+            bufs = [x for x in e.data["args"][1].walk()
+                    if is_call_to(x, ctor)]
+            created = [c for c in rs.calls(ctor)
+                       if c.data["result"] is bufs[0]]
+            fresh = bool(created) and all(
+                set(e.loops) <= set(c.loops) for c in created)
+            trunc = any(x.kind == "call" and x.data.get("name") in (
+                ".truncate",) and x.data.get("recv") is bufs[0]
+                for x in rs.events)
+            ctx.ob("C06.3", e, fresh or trunc,
+                   f"result: each embedded {what} is written through its own "
+                   f"fresh in-memory buffer" if fresh or trunc else
+                   f"result: the {ctor} buffer for embedded {what}s is "
+                   f"created outside the loop and only rewound: a member "
+                   f"that is shorter than an earlier one keeps the earlier "
+                   f"one's tail (corrupt .tum/.kitti/.npy member)",
+                   key=f"C06.3:save:buffer:{what}")
+
     # ------------------------------------------------------- C06.4 / C06.5
     traj = tm.param("traj")
     rw = results[FI + "write_tum_trajectory_file"]
